@@ -1,12 +1,14 @@
 CONSTANTS
- Topics = {"u","t:u","t/u"}
- Groups = {"g","g:t","g/x"}
+ Topics = {"u","o","o-d","t:u"}
+ Groups = {"g","g:t","g/x","g%3At"}
  ColonNames = {"t:u","g:t"}
- SlashNames = {"t/u","g/x"}
+ SlashNames = {"g/x"}
+ PercentNames = {"g%3At"}
+ DeadVariants = {3}
  MaxParts = 3
  Offs = {0,1,2}
  Metas = {"","m"}
- Variants = {1,2}
+ Variants = {1,2,3}
  TimeoutVariants = {1}
  CfgVariants = {1,2}
  ToolNames = {"cluster_status","cluster_metrics","list_topics","describe_topics","list_groups","describe_group","fetch_offsets","describe_configs"}
@@ -21,6 +23,9 @@ CONSTANTS
  DevFetchDefaultZero = FALSE
  DevCommitUnchecked = FALSE
  DevToolWrites = FALSE
+ DevToolReaps = FALSE
+ DevEscapeFastPath = FALSE
+ DevEtcdDeletePrefix = FALSE
 INIT TInit
 NEXT TNext
 POSTCONDITION Reached
